@@ -413,23 +413,23 @@ var families = []Fam{
 		New: func(t ad.ScalarType, p Params) (interface{}, error) {
 			return nilIfErr(sd.NewNegativeBinomialDistribution(sc(t, p.Ps[0]), sc(t, p.Ps[1])))
 		},
-		// round 7: the boundary values the constructor accepts: p = 0 (point mass at 0, the `0^0 = 1` branch of LogPdf)
-		// and p = 1 (accepted although p^k (1-p)^r is identically 0: F-C14-NEGBIN-P1)
+		// round 7: the boundary value the constructor accepts: p = 0 (point mass at 0, the `0^0 = 1` branch of LogPdf).
+		// p = 1 (p^k (1-p)^r identically 0) is an INVALID parameter since the guard became `p >= 1.0` (was F-C14-NEGBIN-P1)
 		Valid: func(r *Rng) Params {
 			switch r.Intn(12) {
 			case 0, 1:
 				return p2(gPos(r), 0)
-			case 2:
-				return p2(gPos(r), 1)
 			}
 			return p2(gPos(r), gProb(r))
 		},
 		Invalid: func(r *Rng) Params {
-			switch r.Intn(3) {
+			switch r.Intn(4) {
 			case 0:
 				return p2(gNonPos(r), gProb(r))
 			case 1:
 				return p2(gPos(r), -float64(r.Range(1, 8))/8)
+			case 2:
+				return p2(gPos(r), 1)
 			}
 			return p2(gPos(r), 1+float64(r.Range(1, 8))/8)
 		},
